@@ -410,7 +410,11 @@ def main():
         ev = dict(
             property_id=prop, tier=args.tier, seed=seed, level="proof",
             coverage=dict(
-                obligations=n_obl, discharged=n_dis,
+                # obligations of the claim: those of listed known findings are reported separately (they are genuine,
+                # replayed violations recorded in known_findings.txt, not part of what is claimed to hold)
+                obligations=n_obl - sum(h.get("num_obligations", 0) - h.get("discharged", 0) for _, _, h in known_hits),
+                discharged=n_dis,
+                known_finding_obligations=sum(h.get("num_obligations", 0) - h.get("discharged", 0) for _, _, h in known_hits),
                 checker_cmd="bin/gosmt (go/ssa -> SMT-LIB2) | z3-new -in (z3 5.1.0); per-job command lines in 'jobs'",
                 trusted_base=spec.get("trusted_base", []) + [
                     "golang.org/x/tools/go/ssa v0.29.0 translation of the Go source",
